@@ -177,6 +177,7 @@ Section Steps.
                            first [ exact Hg | apply get_set_some; exact Hg | apply get_updg_some; exact Hg
                                  | apply get_remove_some; [intros ->; apply Hnr; cbn; auto | exact Hg] ]]])].
     - (* KBroker *)
+      destruct (Nat.eqb (cf_intervals cf) O); [cbn in H; discriminate|].
       destruct (add_broker_offset cf st c t p cnt off) as [s r|] eqn:E; cbn in H; inversion H; subst; clear H.
       destruct (add_broker_effect _ _ _ _ _ _ _ _ _ E) as [->|(cl & b' & Hg & ->)]; [split; auto|].
       split; [intros cc Hc; apply cl_present_set; exact Hc|].
@@ -244,9 +245,10 @@ Section Steps.
 
   (* no step of a handler whose held pointers are live panics (tree after 54faa50) *)
   Lemma exec_no_crash prio st k :
+    (1 <= cf_intervals cf)%nat ->
     guarded = true -> cont_ok st k -> exec cf now guarded prio st k <> SCrash.
   Proof.
-    intros Hg (Hcl & Hneed & Hshape) H. subst guarded.
+    intros HN Hg (Hcl & Hneed & Hshape) H. subst guarded.
     destruct k; cbn [exec] in H; cbn [cont_cluster needs shape_ok] in *.
     all: try solve [break_match_hyp H; try discriminate;
                     first [ apply Hcl; assumption
@@ -256,6 +258,7 @@ Section Steps.
                             end
                           | congruence ]].
     - (* KBroker *)
+      destruct (Nat.eqb (cf_intervals cf) O) eqn:EN; [apply Nat.eqb_eq in EN; lia|].
       destruct (add_broker_offset cf st c t p cnt off) eqn:E; [discriminate|].
       exact (add_broker_no_crash _ _ _ _ _ _ Hshape E).
     - (* KFetchTopic *)
@@ -416,9 +419,10 @@ Section Global.
 
   (* every step of the scheduler preserves the invariant and does not crash (tree after the C08 fix: commits) *)
   Theorem inv_step gs i gs' t :
+    (1 <= cf_intervals cf)%nat ->
     inv gs -> g_crashed gs = false -> sched_step cf now true gs i = (gs', t) -> inv gs' /\ g_crashed gs' = false.
   Proof.
-    intros I Hnc H. unfold sched_step in H. rewrite Hnc in H.
+    intros HN I Hnc H. unfold sched_step in H. rewrite Hnc in H.
     destruct (nth_error (g_ws gs) i) as [w|] eqn:Hi; [|inversion H; subst; auto].
     destruct (w_run w) as [k|] eqn:Hk.
     - (* a parked handler takes its lock and runs to the next one *)
@@ -442,7 +446,7 @@ Section Global.
         * apply concerns_shrink; cbn; [|auto]. intros k0 E. discriminate.
         * intros l m [].
         * eapply others_survive; eauto. rewrite Hex. reflexivity.
-      + exfalso. eapply exec_no_crash; eauto.
+      + exfalso. eapply (exec_no_crash cf now true); eauto.
     - (* an idle worker starts its next request *)
       destruct (w_queue w) as [|r q] eqn:Hq; [inversion H; subst; auto|].
       assert (Hwf : wf_req r) by (apply (inv_wf gs I i w r Hi); rewrite Hq; left; reflexivity).
@@ -496,6 +500,8 @@ Section Top.
     - intros i w r Hi Hin. destruct (G i w Hi) as (q & Hq & ->). apply (Hwf q r); [eapply nth_error_In; eauto | exact Hin].
   Qed.
 
+  Variable HN : (1 <= cf_intervals cf)%nat.
+
   Lemma sched_run_inv sched : forall gs gs' ts,
     inv gs -> g_crashed gs = false -> sched_run cf now true gs sched = (gs', ts) -> inv gs' /\ g_crashed gs' = false.
   Proof.
@@ -503,7 +509,7 @@ Section Top.
     - inversion H; subst; auto.
     - destruct (sched_step cf now true gs i) as [gs1 t] eqn:E1.
       destruct (sched_run cf now true gs1 rest) as [gs2 ts2] eqn:E2. inversion H; subst.
-      destruct (inv_step cf now gs i gs1 t I Hc E1) as [I1 Hc1]. eapply IH; eauto.
+      destruct (inv_step cf now gs i gs1 t HN I Hc E1) as [I1 Hc1]. eapply IH; eauto.
   Qed.
 
   (* (a) no crash: whatever the schedule, the number of workers, the queues the router may produce *)
@@ -583,6 +589,7 @@ Section Top.
                             | |- get (remove _ ?g0) _ = _ \/ _ => destruct (Z.eq_dec g g0) as [->|Ng]; [right; left; reflexivity | left; apply get_remove_neq; congruence]
                             end ]].
     - (* KBroker *)
+      destruct (Nat.eqb (cf_intervals cf) O); [cbn in H; discriminate|].
       destruct (add_broker_offset cf st c0 t p cnt off) as [s r|] eqn:E; cbn in H; inversion H; subst; clear H.
       destruct (add_broker_effect _ _ _ _ _ _ _ _ _ E) as [->|(cl & b' & Hg & ->)]; [auto|]. left.
       destruct (Z.eq_dec c c0) as [->|Nc]; [|apply group_state_set_other; exact Nc].
@@ -821,7 +828,8 @@ Section Replies.
     exists c snap cl, k = KFetchCons3 c snap /\ get st c = Some cl /\ l = fetch_topics_lags_g (cl_broker cl) snap.
   Proof.
     intros H. destruct k; cbn [exec] in H; try solve [break_match_hyp H; inversion H].
-    - destruct (add_broker_offset cf st c t p cnt off) eqn:E; inversion H; subst.
+    - destruct (Nat.eqb (cf_intervals cf) O); [discriminate|].
+      destruct (add_broker_offset cf st c t p cnt off) eqn:E; inversion H; subst.
       unfold add_broker_offset in E. break_match_hyp E; inversion E.
     - destruct (fetch_topic st c t) eqn:E; inversion H; subst. unfold fetch_topic in E. break_match_hyp E; inversion E.
     - destruct (get st c) as [cl|] eqn:E; inversion H; subst. exists c, snap, cl. auto.
@@ -1029,6 +1037,7 @@ Section Refine.
 
   (* the refinement: builder lag's sequential step is what the sectioned handler does when nobody interrupts it *)
   Theorem run_alone_refines_proof st r :
+    (1 <= cf_intervals cf)%nat ->
     wf_state st ->
     exists fuel0, forall fuel, (fuel0 <= fuel)%nat ->
       match Storage.step cf now st r with
@@ -1036,11 +1045,12 @@ Section Refine.
       | Crashed => run_alone cf now true prio fuel st r = None
       end.
   Proof.
-    intros Hwf. destruct r; cbn [Storage.step].
+    intros HN Hwf. destruct r; cbn [Storage.step].
     - (* SetBrokerOffset *)
       exists 1%nat. intros [|fuel] Hf; [lia|]. unfold run_alone. cbn [start].
       destruct (get st c) as [cl|] eqn:Eg.
-      + cbn [run_cont exec]. destruct (add_broker_offset cf st c t p cnt off) as [st' rep|] eqn:E; [|reflexivity].
+      + cbn [run_cont exec]. replace (Nat.eqb (cf_intervals cf) O) with false by (symmetry; apply Nat.eqb_neq; lia).
+        destruct (add_broker_offset cf st c t p cnt off) as [st' rep|] eqn:E; [|reflexivity].
         exists rep. split; [reflexivity | apply reply_equiv_refl].
       + unfold add_broker_offset. rewrite Eg. exists RNone. split; reflexivity.
     - (* SetConsumerOffset *)
@@ -1177,6 +1187,18 @@ Lemma crash_before_fix :
   g_crashed (fst (sched_run w_cf w_now false (init_g (pre_state [1] w_pre) w_queues []) w_sched)) = true /\
   g_crashed (fst (sched_run w_cf w_now true (init_g (pre_state [1] w_pre) w_queues []) w_sched)) = false.
 Proof. vm_compute. split; reflexivity. Qed.
+
+(* intervals = 0 (Configure accepts it): the first broker offset panics (ring.New(0) is nil) *)
+Lemma crash_at_zero_intervals :
+  wf_queues [[SetBrokerOffset 1 1 0 1 50]] /\
+  g_crashed (fst (sched_run (mkConfig 0 100000 0 (fun _ => true)) w_now true
+                            (init_g (init_state [1]) [[SetBrokerOffset 1 1 0 1 50]] []) [0; 0]%nat)) = true.
+Proof.
+  split; [|vm_compute; reflexivity]. split.
+  - intros i j qi qj ri rj c g Hi Hj Hri Hrj Gi Gj. destruct i as [|i]; [|destruct i; discriminate].
+    cbn in Hi. inversion Hi; subst. destruct Hri as [<-|[]]. discriminate.
+  - intros q r [<-|[]] [<-|[]]. cbn. lia.
+Qed.
 
 (* corpus/C08 case 3: the commit reads the partition count, the whole deleteTopic runs, the commit then re-creates the
    group's entry for the deleted topic.  No sequential order of the two requests ends like that. *)
